@@ -134,7 +134,7 @@ pub fn sorted(target: &Id, nodes: impl Iterator<Item = (Id, SocketAddrV4)>) -> V
 
 /// Closure / order / replica verdicts of one finished lookup, from its own trace.
 #[allow(clippy::too_many_arguments)]
-fn verdicts(ctx: &RunCtx, sim: &Sim, report: &mut Report, node: HostId, op: OpId, kind: u64, lookup_target: &Id, t0: u64, t1: u64, done: bool, what0: &str) -> LookupTrace {
+fn verdicts(ctx: &RunCtx, sim: &Sim, report: &mut Report, node: HostId, op: OpId, kind: u64, lookup_target: &Id, t0: u64, t1: u64, done: bool, what0: &str, closure: bool) -> LookupTrace {
     let lt = lookup_trace(sim, node, lookup_target, t0, t1);
     let what = format!("{what0} queried={} answerers={} known={} late-counted={}", lt.queried.len(), lt.answerers.len(), lt.known.len(), lt.late_counted);
 
@@ -156,6 +156,9 @@ fn verdicts(ctx: &RunCtx, sim: &Sim, report: &mut Report, node: HostId, op: OpId
     let best: Vec<(Id, SocketAddrV4)> = sorted(lookup_target, lt.known.iter().map(|(a, id)| (*id, *a))).into_iter().take(20).collect();
     let me = sim.node_addr(node);
     for (rank, (id, a)) in best.iter().enumerate() {
+        if !closure {
+            break;
+        }
         if !seen.contains(a) && *a != me {
             report.violate(
                 "closure",
@@ -393,7 +396,7 @@ fn run_late(ctx: &RunCtx) -> Report {
         report.violate("node-died", "node-actor-panicked", format!("node died: {d}"));
     }
     let what = format!("late-answer family: kind={kind} relays={m} late={n_late} hidden={n_hidden} noise={n_noise} public={public} warm={warm}");
-    let lt = verdicts(ctx, &sim, &mut report, node, op, kind, &lookup_target, t0, t1, done, &what);
+    let lt = verdicts(ctx, &sim, &mut report, node, op, kind, &lookup_target, t0, t1, done, &what, true);
     report.nontrivial = lt.late_counted > 0;
     report.probe("late_answer_family_runs", 1);
     if lt.late_counted > 0 {
@@ -564,8 +567,40 @@ fn run(ctx: &RunCtx) -> Report {
         report.violate("node-died", "node-actor-panicked", format!("node died: {d}"));
     }
     let what = format!("kind={kind} peers={n} id-plan={plan} public={public} warm={warm}");
-    let lt = verdicts(ctx, &sim, &mut report, node, op, kind, &lookup_target, t0, t1, done, &what);
+    let lt = verdicts(ctx, &sim, &mut report, node, op, kind, &lookup_target, t0, t1, done, &what, true);
     let what = format!("{what} queried={} answerers={} known={}", lt.queried.len(), lt.answerers.len(), lt.known.len());
+    // 1 token lookup in 3 (own random stream): *the same lookup again* within the five minutes its result is
+    // cached, after one to three of its answerers have died. The second lookup is a lookup of its own: what
+    // it reports are the nodes that answered IT (a dead node answers nothing), and every address is asked once.
+    let mut rrng = Rng::new(crate::rng::key(ctx.seed, &[crate::rng::tag("c07-repeat")]));
+    if report.violation.is_none() && (kind == 1 || kind == 2) && !lt.ambiguous_late && lt.answerers.len() >= 2 && rrng.chance(1, 3) {
+        let mut victims: Vec<SocketAddrV4> = lt.answerers.keys().copied().collect();
+        rrng.shuffle(&mut victims);
+        victims.truncate(rrng.usize(1, 3.min(victims.len() - 1)));
+        for i in 0..n {
+            if victims.contains(&rawnet.contact(i).1) {
+                rawnet.with_peer(i, |p| p.silent = true);
+            }
+        }
+        sim.run_for(rrng.range(1, 240) * SEC);
+        let t0b = sim.now();
+        let op2 = if kind == 1 { sim.get_closest_nodes(node, lookup_target) } else { sim.get_peers(node, lookup_target) };
+        let done2 = sim.run_ops(&[op2], sim.now() + 300 * SEC);
+        let t1b = sim.with_op(op2, |o| o.done_at).unwrap_or(sim.now());
+        sim.run_for(SEC);
+        if !done2 {
+            report.violate("hang", "lookup-did-not-finish", format!("the repeated lookup kind {kind} did not finish in 300 s"));
+        }
+        let what2 = format!("REPEATED after {} answerer(s) died: {what}", victims.len());
+        // (the closure rule is not applied: dead table members the lookup was seeded with, which nobody lists any
+        // more, keep their rank among its candidates - outside the all-peers-alive setting of that rule)
+        let lt2 = verdicts(ctx, &sim, &mut report, node, op2, kind, &lookup_target, t0b, t1b, done2, &what2, false);
+        // the dead were asked (they are cached candidates) and did not answer
+        if victims.iter().any(|v| lt2.queried.iter().any(|q| q.0 == *v)) {
+            report.probe("repeated_lookups_that_asked_a_dead_cached_node", 1);
+        }
+        report.probe("repeated_lookups", 1);
+    }
     report.nontrivial = lt.known.len() > 20 || lt.queried.len() > 3;
     report.probe("peers", n as u64);
     report.probe("requests_sent", lt.queried.len() as u64);
